@@ -507,6 +507,49 @@ func c18Inverse(c *Ctx) {
 		c.R.check(okE, rule, "varfloat/encode-chain", shortFn(ef), c.fpos(ef), "rotl(bits(v + 1) − bits(1), k)", "k="+k1)
 		c.R.check(okD && k1 != "" && k2 == neg(k1), rule, "varfloat/decode-chain", shortFn(df), c.fpos(df), "frombits(rotl(x, −k) + bits(1)) − 1 with the encoder's k on every success path", fmt.Sprintf("encoder k=%s decoder k=%s; %s", k1, k2, foundD))
 	}
+	// fixed-width little-endian float: every path of the encoder stores bits(v) into the 8 bytes it appended
+	// (no value is special-cased: ±0, NaN payloads and subnormals are bit patterns like any other), and the
+	// decoder returns frombits(LittleEndian.Uint64(*b)) of the same 8 bytes.
+	el, dl := c.P.Func(pkgEnc, "EncodeFloat64LE"), c.P.Func(pkgEnc, "DecodeFloat64LE")
+	if c.mustFunc(rule, el, "EncodeFloat64LE") && c.mustFunc(rule, dl, "DecodeFloat64LE") {
+		ps, _ := exec(c, el, nil, 1)
+		okL := len(ps) > 0
+		foundL := ""
+		for i, p := range ps {
+			nPut := 0
+			for _, e := range p.Effects {
+				if e.Kind != "call" || !strings.HasSuffix(e.Call.Sym, "littleEndian).PutUint64") && !strings.HasSuffix(e.Call.Sym, "littleEndian).AppendUint64") {
+					continue
+				}
+				v := e.Call.Args[len(e.Call.Args)-1]
+				if v.Op == "call" && v.Sym == "math.Float64bits" && v.Args[0].isParam(1) {
+					nPut++
+				} else {
+					foundL = "stores " + v.Key()
+				}
+			}
+			if nPut != 1 {
+				okL = false
+				foundL = firstNonEmpty(foundL, fmt.Sprintf("path%d[%s] stores bits(v) %d time(s)", i, pathSig(p), nPut))
+			}
+		}
+		c.R.check(okL, rule, "float64le/encode-chain", shortFn(el), c.fpos(el), "every path stores math.Float64bits(v) little-endian exactly once, whatever v is", firstNonEmpty(foundL, fmt.Sprintf("%d path(s)", len(ps))))
+		ps, _ = exec(c, dl, nil, 1)
+		okD, nS := true, 0
+		foundD := ""
+		for _, p := range ps {
+			if p.RetNil(1) != 1 {
+				continue
+			}
+			nS++
+			r := p.RetT[0]
+			foundD = r.Key()
+			if !(r.Op == "call" && r.Sym == "math.Float64frombits" && r.Args[0].Op == "call" && strings.HasSuffix(r.Args[0].Sym, "littleEndian).Uint64")) {
+				okD = false
+			}
+		}
+		c.R.check(okD && nS > 0, rule, "float64le/decode-chain", shortFn(dl), c.fpos(dl), "success returns math.Float64frombits(LittleEndian.Uint64(…)) — the bit pattern unchanged", foundD)
+	}
 	// D5 group constants
 	const rule5 = "C18-D5"
 	type consts struct{ shift7, mask7f, cont80 bool }
